@@ -42,7 +42,9 @@ PROBES = ["estimate strictly inside (1, N)", "estimate == N (never crosses)", "e
           "prefix crosses", "two-vote overstatement staged", "one-vote overstatement staged", "pilot shorter than N/2",
           "interleave with zero small", "interleave with zero med", "multi-assertion contest",
           "p-value equals the risk limit exactly", "super-majority contest with assumed error rates",
-          "interleaving asked for again after the caller overwrote the first answer", "comparison contest next to ONEAudit contests"]
+          "interleaving asked for again after the caller overwrote the first answer", "comparison contest next to ONEAudit contests",
+          "estimate asked for again after the assumed error rates were revised", "whole-number pilot handed over as integers",
+          "population of more than 1024 cards"]
 
 PAIRS = [("w", "w"), ("w", "blank"), ("w", "l"), ("blank", "w"), ("blank", "blank"), ("blank", "l"), ("l", "w"),
          ("l", "blank"), ("l", "l")]
@@ -87,6 +89,7 @@ def generate(rng, tier):
                 "oneaudit": oneaudit, "pool_every": rng.pick([0, 2, 3]), "batch": rng.pick([3, 5, 8]),
                 "err": [i for i in range(N) if rng.chance(rng.pick([0.0, 0.05]))],
                 "rate_1": rng.pick([0, 0.001, 0.05, 0.1]), "rate_2": rng.pick([0, 0, 0.02, 0.05]),
+                "second_rates": rng.pick([None, [0, 0], [0.01, 0], [0.2, 0.1]]),
                 "reps": rng.pick([None, None, rng.randint(1, 6)]), "quantile": rng.pick([0.5, 0.8]), "sim_seed": rng.getrandbits(31)}
     if kind == "direct":
         dcfg = D.gen_config(rng, mode=rng.pick(["finite", "finite", "iid"]))  # the IID tests (Kaplan-Markov/-Wald) too; N stays finite
@@ -106,6 +109,20 @@ def generate(rng, tier):
             if "g" in dcfg["kwargs"]:
                 dcfg["kwargs"]["g"] = 0
             case["exact_hit"] = True
+        if dcfg["u"] >= 1 and rng.chance(0.2):
+            # a pilot of whole numbers (0/1 polling values) handed over as integers
+            x = [float(rng.pick([0, 1, 1, 1])) for _ in range(L)]
+            case["as_ints"] = True
+        if rng.chance(0.04):
+            N = rng.randint(1030, 2300)  # a contest of a couple of thousand cards
+            if rng.chance(0.6):
+                # ... whose null total N*t is passed by the tiled pilot exactly at a power-of-two position
+                k2 = rng.pick([1024, 1024, 2048])
+                tiled = (x * (k2 // len(x) + 1))[:k2]
+                lo_, hi_ = sum(tiled[:-1]) / dcfg["t"], sum(tiled) / dcfg["t"]
+                cands = [n_ for n_ in range(int(math.ceil(lo_)), int(math.floor(hi_)) + 1) if lo_ <= n_ < hi_ and n_ > k2]
+                if cands:
+                    N = rng.pick(cands)
         case.update({"cfg": dcfg, "N": N, "x": x, "alpha": alpha,
                      "sims": [{"reps": rng.randint(1, 12), "quantile": rng.pick([0.1, 0.5, 0.8, 0.99]), "seed": rng.getrandbits(31)}
                               for _ in range(2)]})
@@ -290,9 +307,15 @@ def execute(case):
             out.probe("non-constant pilot")
         if len(x) < N / 2:
             out.probe("pilot shorter than N/2")
+        x_given = np.array(x)
+        if case.get("as_ints") and all(float(v).is_integer() for v in x):
+            x_given = np.array([int(v) for v in x])
+            out.probe("whole-number pilot handed over as integers")
+        if N > 1024:
+            out.probe("population of more than 1024 cards")
         try:
             with W.quiet():
-                est = tst.sample_size(np.array(x), alpha=alpha, reps=None)
+                est = tst.sample_size(x_given, alpha=alpha, reps=None)
         except Exception as e:
             out.raised("sample_size", e)
             return out
@@ -628,6 +651,23 @@ def execute_audit(ns, out, case):
     if any(1 < v < N for v in exp.values()):
         out.nontrivial = True
         out.probe("estimate strictly inside (1, N)")
+    if case.get("second_rates") is not None and got == exp:
+        # the planning assumptions are revised and the estimate asked for again, with the same audit, contests and list
+        audit.error_rate_1, audit.error_rate_2 = case["second_rates"]
+        try:
+            exp2 = expected()
+            with W.quiet():
+                audit.find_sample_size(contests, cvrs=cvrs)
+            got2 = {cid: con.sample_size for cid, con in contests.items()}
+            out.probe("estimate asked for again after the assumed error rates were revised")
+            out.ev("audit-second", [exp2, got2])
+            if got2 != exp2:
+                out.violate("C16.e", "audit-max/second-estimate",
+                            f"with the assumed rates revised from {case['rate_1']}/{case['rate_2']} to {case['second_rates']} "
+                            f"Audit.find_sample_size set contests to {got2}; each contest's own assertions estimate {exp2}")
+        except Exception as e:
+            out.raised("Audit.find_sample_size(second)", e)
+        audit.error_rate_1, audit.error_rate_2 = case["rate_1"], case["rate_2"]
     if got != exp:
         out.violate("C16.e", "audit-max/initial", f"Audit.find_sample_size set contests to {got}; the largest estimate among each "
                                                   f"contest's own unconfirmed assertions is {exp} (contest order {list(contests)})")
